@@ -126,6 +126,10 @@ func TestVerifC15Archive(t *testing.T) {
 						n = fmt.Sprintf("Syn%d-%d.header.txt", idx, k)
 					}
 					synth[n] = vSynthLicense(r, 30+r.Intn(400))
+					if k == 2 || (k == 5 && pl.n > 6) {
+						// a license whose normalised text has only one or two words
+						synth[n] = []string{"license", "software license", "Public Domain software.\n", "terms"}[r.Intn(4)]
+					}
 					if k == 1 || (k == 3 && pl.n > 5) {
 						// a file whose normalised text is empty (notice only / punctuation only /
 						// blank): still one (text, hash) pair in the archive
